@@ -28,6 +28,7 @@ import (
 
 	"verifharness/gen"
 	"verifharness/hx"
+	"verifharness/ref/rder"
 	"verifharness/ref/rsm2"
 	"verifharness/ref/rsm3"
 	"verifharness/sm2x"
@@ -238,6 +239,52 @@ func TestC17_Enveloped(t *testing.T) {
 				return rsaKeys[i]
 			}
 			return sm2x.Priv(keys[i])
+		}
+		// the same envelope with the encrypted content as a primitive [0] IMPLICIT OCTET STRING (what OpenSSL writes) instead
+		// of the constructed form this library writes: both must open alike
+		if rapid.Bool().Draw(t, "primitiveContent") {
+			prim, ok := gen.DERReplaceWhere(env, func(tl rder.TLV, c []byte) bool {
+				if tl.Tag != 0xa0 || len(c) < 2 || c[0] != 0x04 {
+					return false
+				}
+				in, err := rder.ReadStrict(c, 0)
+				return err == nil && in.HdrLen+in.Len == len(c)
+			}, 0x80, func(old []byte) []byte {
+				in, _ := rder.ReadStrict(old, 0)
+				return old[in.HdrLen:]
+			})
+			if !ok {
+				t.Fatalf("harness: encrypted content not found in the envelope")
+			}
+			env = prim
+			cl = append(cl, "primitive_encrypted_content")
+		}
+		// one parsed object serves every recipient, each of them twice: opening an envelope must not use it up
+		{
+			var shared *gx.PKCS7
+			if pn := tryB(func() { shared, err = gx.ParsePKCS7(env) }); pn != nil || err != nil {
+				t.Fatalf("ParsePKCS7 of the envelope: err=%v panic=%v", err, pn)
+			}
+			for round := 0; round < 2; round++ {
+				for i := 0; i < nrec; i++ {
+					var out []byte
+					var derr error
+					pn := tryB(func() {
+						if useRSA {
+							out, derr = shared.Decrypt(certs[i], rsaKeys[i])
+						} else {
+							out, derr = shared.DecryptSM2(certs[i], sm2x.Priv(keys[i]), mode)
+						}
+					})
+					if pn != nil {
+						t.Fatalf("decrypt on a shared parsed envelope panicked: %v\n%s", pn.Val, pn.Stack)
+					}
+					if derr != nil || !bytes.Equal(out, content) {
+						t.Fatalf("recipient %d, decryption #%d on ONE parsed envelope (alg=%d, %v) did not recover the %d-byte content: err=%v got %d bytes", i, round*nrec+i+1, alg, cl, len(content), derr, len(out))
+					}
+				}
+			}
+			cl = append(cl, "parsed_envelope_reused")
 		}
 		for i := 0; i < nrec; i++ {
 			out, err, pn := dec(env, certs[i], keyOf(i))
